@@ -14,9 +14,11 @@ func init() { checks["C04"] = checkC04 }
 // at a chosen offset and ends a chosen distance before the end of input.
 func wrapString(body []byte, pad int, asKey bool, trailElems int) []byte {
 	var b bytes.Buffer
-	b.WriteString(strings.Repeat(" ", pad))
+	// the padding goes INSIDE the document (Parse trims leading white space, so padding in
+	// front of it would not move the string relative to the 64-byte blocks of stage 1)
+	sp := strings.Repeat(" ", pad)
 	if asKey {
-		b.WriteString(`{"`)
+		b.WriteString(`{` + sp + `"`)
 		b.Write(body)
 		b.WriteString(`":0`)
 		for i := 0; i < trailElems; i++ {
@@ -24,7 +26,7 @@ func wrapString(body []byte, pad int, asKey bool, trailElems int) []byte {
 		}
 		b.WriteString("}")
 	} else {
-		b.WriteString(`["`)
+		b.WriteString(`[` + sp + `"`)
 		b.Write(body)
 		b.WriteString(`"`)
 		for i := 0; i < trailElems; i++ {
@@ -183,6 +185,21 @@ func checkC04(c *Ctx) {
 			}
 			body := append(bytes.Repeat([]byte{'\\'}, run), 'n')
 			add("bsrun", wrapString(body, off, false, 0))
+		}
+	}
+	// (6b) an escape straddling a 64-byte block boundary (backslash at offset 63 mod 64, the
+	// escaped character first in the next block), directly followed by a backslash run of
+	// either parity and the closing quote — and the same one and two bytes earlier/later
+	for pad := 50; pad < 200; pad++ {
+		for _, esc := range []string{`\n`, `\"`, `\\`, `\u0041`} {
+			for run := 0; run <= 5; run++ {
+				body := append(bytes.Repeat([]byte{'a'}, pad), []byte(esc)...)
+				body = append(body, bytes.Repeat([]byte{'\\'}, run)...)
+				if run%2 == 1 {
+					body = append(body, 'n')
+				}
+				add("escape-straddles-block", wrapString(body, 0, pad%7 == 0, 0))
+			}
 		}
 	}
 	// (7) near the end of input: escape k bytes before the end
